@@ -363,7 +363,9 @@ def analyse():
     for f in reached:
         f["writes"] = member_writes(f["body"], classes.get(f["cls"], set())) if f["cls"] else []
         f["statics"] = static_locals(f["body"])
-    return reached, sorted(set(hazards)), len(entries)
+    # how many of the three entry points were located: further overloads of one of them (all of which are walked
+    # above) do not count twice
+    return reached, sorted(set(hazards)), len(set(f["name"] for f in entries))
 
 
 def coq_str(s):
